@@ -30,7 +30,11 @@ pub struct GasBinder {
 
 impl GasBinder {
     pub fn new(inst: &J, init: &J) -> GasBinder {
-        let mut cx = Ctx::new_aging(5);
+        GasBinder::new_in(Ctx::new_aging(5), inst, init)
+    }
+
+    /// in a world that already exists (names bound there - e.g. the operators contract as collector - are used as they are)
+    pub fn new_in(mut cx: Ctx, inst: &J, init: &J) -> GasBinder {
         let env = cx.env.clone();
         let owner = cx.addr(&jstr(init, "owner"));
         let collector = cx.addr(&jstr(init, "collector"));
